@@ -22,7 +22,7 @@ func init() {
 			"fast(a,b), fast(b,a) and the dispatching call are compared with an independent implementation of the formula. " +
 			"evaluations = pairs. A pair is non-trivial if it has matching, disjoint and excess genes at once; distinct by the " +
 			"(innovation lists, coefficients) fingerprint.",
-		Assumptions: []string{"gene lists sorted by innovation number, coefficients non-negative", "1e-9 relative tolerance between different summation orders"},
+		Assumptions: []string{"gene lists sorted by innovation number, coefficients non-negative", "1e-9 relative tolerance between different summation orders", "lists of 0..40 genes, one pair in 150 of 64..4096; every genome is also measured against the duplicate the library makes of it"},
 		Cases: func(tier string) int {
 			if tier == "quick" {
 				return 2560
